@@ -112,8 +112,41 @@ func TestGotransFixtures(t *testing.T) {
 			add("Find", czs(xs)+" "+cz(int64(x)), func() string { return cz(int64(gtfix.Find(xs, x))) })
 		}
 	}
+	for _, x := range []int{-3, 0, 1, 2, 3, 4, 7, 8, 9, 27, 30, 97} {
+		x := x
+		add("SumTo", cz(int64(x)), func() string { return cz(int64(gtfix.SumTo(x))) })
+		add("Collatz", cz(int64(x)), func() string { return cz(int64(gtfix.Collatz(x))) })
+		add("Nest", cz(int64(x)), func() string { return cz(int64(gtfix.Nest(x))) })
+		for _, xs := range [][]int{nil, {1}, {-5, 3, 200, 4}, {7, 0, 7, -1, 2}} {
+			xs := xs
+			add("RangeSum", czs(xs)+" "+cz(int64(x)), func() string { return cz(int64(gtfix.RangeSum(xs, x))) })
+		}
+		add("Script", "(@nil (list (bstr * Z))) "+cz(int64(x))+" "+cs("k"), func() string {
+			st := gtfix.NewStack(x)
+			a, b, c, d := gtfix.Script(st, "k")
+			return "((@nil (list (bstr * Z))), " + cz(int64(st.N())) + ", " + cz(int64(a)) + ", " + cz(int64(b)) + ", " + cz(int64(c)) + ", " + cz(int64(d)) + ")"
+		})
+	}
+	for _, xs := range [][]int{nil, {1}, {1, -2}, {-5, 3, 200, 4}, {7, 0, 7, -1, 2}} {
+		xs := xs
+		add("RangeIdx", czs(xs), func() string { return cz(int64(gtfix.RangeIdx(xs))) })
+	}
+	for _, k := range []string{"k", "x", ""} {
+		for _, mark := range []bool{false, true} {
+			k, mark := k, mark
+			add("Script2", "(@nil ((list (bstr * Z)) * bool)) "+cs(k)+" "+cb(mark), func() string {
+				var f gtfix.Frames
+				a, b := gtfix.Script2(&f, k, mark)
+				return "((@nil ((list (bstr * Z)) * bool)), " + cz(int64(a)) + ", " + cz(int64(b)) + ")"
+			})
+		}
+	}
 	for _, s := range strs {
 		s := s
+		for _, i := range []int{-1, 0, 1, 2, 4, 5} {
+			i := i
+			add("LastByte", cs(s)+" "+cz(int64(i)), func() string { return cz(int64(gtfix.LastByte(s, i))) })
+		}
 		add("TagStr", cs(s), func() string { return cz(int64(gtfix.TagStr(s))) })
 		add("Strs", cs(s), func() string { return cz(int64(gtfix.Strs(s))) })
 		for _, c := range []byte{'a', '.', 0xc3} {
@@ -151,6 +184,8 @@ func TestGotransFixtures(t *testing.T) {
 	// translate
 	g := &gen{repo: ".", fset: token.NewFileSet(), files: map[string]*ast.File{}, js: map[string]interface{}{}}
 	st := g.gtState()
+	st.cfgs["gtfix:Collatz"] = &gtCfg{fuel: map[int]string{1: "x + 200"}}
+	st.cfgs["gtfix:LastByte"] = &gtCfg{fuel: map[int]string{1: "i + 2"}}
 	var defs strings.Builder
 	var examples strings.Builder
 	n := 0
@@ -196,7 +231,7 @@ func TestGotransFixtures(t *testing.T) {
 	if len(g.problem) > 0 {
 		t.Fatalf("problems: %v", g.problem)
 	}
-	src := "From Soy Require Import Model.Bytes.\nOpen Scope N_scope.\n\n" + gtPrelude + defs.String() + "\n" + examples.String()
+	src := "From Soy Require Import Model.Bytes.\nOpen Scope N_scope.\n\n" + gtPrelude + gtPrelude2 + defs.String() + "\n" + examples.String()
 
 	coqDir := os.Getenv("VERIF_COQ")
 	if coqDir == "" {
